@@ -265,5 +265,13 @@ size_t strlcpy(char *dst, const char *src, size_t size);
 // as CURL_MAX_HTTP_HEADER
 #define HTP_MAX_HEADER_FOLDED 102400
 
+// Verification trace points (compiled in only with -DLIBHTP_VERIF; they change no behaviour).
+#ifdef LIBHTP_VERIF
+void htp_verif_trace(const void *connp, int site, int64_t a, int64_t b);
+#define HTP_VERIF_TRACE(c, site, a, b) htp_verif_trace((c), (site), (int64_t) (a), (int64_t) (b))
+#else
+#define HTP_VERIF_TRACE(c, site, a, b) ((void) 0)
+#endif
+
 #endif	/* _HTP_PRIVATE_H */
 
